@@ -425,6 +425,48 @@ Definition int_dist (t : Z) : Z := let d := t mod SCALE in Z.min d (SCALE - d).
 (* noninteger_charge(total) == "" *)
 Definition guard_ok (t : Z) : bool := int_dist t <=? TOL.
 
+(* Residue.charge returns float(f"{charge:.4f}"): in exact decimals, the nearest multiple of
+   1e-4 (half up; ties cannot occur for the table states, whose sums are multiples of 1e-4) *)
+Definition round4 (q : Z) : Z := ((q + 5000) / 10000) * 10000.
+
+(* main.non_trivial: total_charge = sum of residue.charge over all residues, then
+   noninteger_charge(total_charge) must be "" or ValueError is raised *)
+Definition guard_total (qs : list Z) : Z := zsum (map round4 qs).
+Definition guard_raises (qs : list Z) : bool := negb (guard_ok (guard_total qs)).
+
+(* every resolvable nucleotide charge is a multiple of 1e-4 *)
+Definition check_round4 (m : ffmap) (rows : list nrow) : bool :=
+  forallb (fun r => forallb (fun q => q mod 10000 =? 0) (nrow_charges m r)) rows.
+
+(* charges of the resolvable alternatives of an amino state row *)
+Definition row_charges (m : ffmap) (r : arow) : list Z :=
+  flat_map (fun alt => match resolve m (ar_ff r) alt with Some q => [q] | None => [] end) (ar_alts r).
+
+Definition shift_of (t1 t2 : tkind) : option Z :=
+  match t1, t2 with T_N, T_NN => Some (-1) | T_C, T_NC => Some 1 | _, _ => None end.
+
+Definition same_residue (r1 r2 : arow) : bool :=
+  base_eqb (base_of_class (ar_cls r1)) (base_of_class (ar_cls r2)) && base_eqb (ar_state r1) (ar_state r2).
+
+(* --neutraln / --neutralc: the neutral terminus state of a residue carries exactly one unit
+   less / more than the charged one, wherever both are fully parameterised *)
+Definition check_neutral_shift (m : ffmap) (exc : list nat) (rows : list arow) : bool :=
+  forallb (fun r1 => forallb (fun r2 =>
+    if same_residue r1 r2 && negb (mem_nat (ar_key r2) exc) then
+      match shift_of (ar_term r1) (ar_term r2) with
+      | Some s => forallb (fun q1 => forallb (fun q2 => q2 =? q1 + s * SCALE) (row_charges m r2)) (row_charges m r1)
+      | None => true
+      end
+    else true) rows) rows.
+
+Definition is_neutral_name (n : sname) : bool := match fst n with PNN | PNC => true | _ => false end.
+
+(* the force field knows no atom of any NEUTRAL-N* / NEUTRAL-C* state *)
+Definition check_neutral_absent (m : ffmap) (rows : list arow) : bool :=
+  forallb (fun r => if is_neutral_name (ar_name r)
+                    then forallb (forallb (fun a => negb (is_some (lookup m (ar_ff r) a)))) (ar_alts r)
+                    else true) rows.
+
 Local Close Scope Z_scope.
 
 (* ---------------------------------------------------------------------- *)
